@@ -31,7 +31,7 @@ def certOptionDefault : Bool := false
 def certAbsentPermits : Bool := true
 /-- the guard of `check_certificate_permission` is the presence test `self._cert_options is not None`
     (false: a truth-value test, under which a certificate without any option counts as no certificate) -/
-def certGuardIsPresenceTest : Bool := false
+def certGuardIsPresenceTest : Bool := true
 /-- the lookup rules as one record, the parameter of the decision model -/
 def lookup : Lookup :=
   { keyRevokes := keyOptionRevokes, keyDefault := keyOptionDefault, certPresence := certGuardIsPresenceTest,
